@@ -78,6 +78,13 @@ def mk_src(rng, content, kind):
             i = rng.randrange(n)
             bad = content[:i] + bytes([content[i] ^ 0x20]) + content[i + 1:]
             src = [[p, "more"] for p in split(rng, bad, rng.randint(0, 3)) if p]
+    elif kind == "corrupt-last":        # right length, last byte wrong (only the final write can tell)
+        if n:
+            bad = content[:-1] + bytes([content[-1] ^ 0x01])
+            src = [[p, "more"] for p in split(rng, bad, rng.randint(0, 3)) if p]
+    elif kind == "wrong-samelen":       # right length, other content
+        bad = bytes((b ^ 0x15) for b in content)
+        src = [[p, "more"] for p in split(rng, bad, rng.randint(0, 3)) if p]
     elif kind == "err":                 # reader error at some point, with or without data
         cut = rng.randrange(0, len(src) + 1)
         src = src[:cut]
@@ -90,7 +97,7 @@ def mk_src(rng, content, kind):
     return [{"data": hx(p), "st": st} for p, st in src]
 
 
-SRC_KINDS = ["honest", "honest", "honest-eof", "short", "long-same", "long-after", "corrupt", "err", "junk"]
+SRC_KINDS = ["honest", "honest", "honest-eof", "short", "long-same", "long-after", "corrupt", "corrupt-last", "wrong-samelen", "err", "junk"]
 
 
 def src_total(src):
@@ -188,6 +195,9 @@ ODD_PARTS = [
 ]
 
 
+STAGING_SUFFIXES = [".tmp", ".partial", ".chunked", "~", ".lock", "-1", ".tmp", ".tmp"]
+
+
 def odd_name(rng):
     parts = []
     for k in range(4):
@@ -212,6 +222,14 @@ def gen_hist(rng, klass=None):
     # rejected (or accepted) once meets Link, Resolve and Unlink
     odd = [odd_name(rng) for _ in range(rng.randint(1, 4))]
 
+    # sibling names that differ by a suffix a staging scheme might use for its own files
+    if rng.random() < 0.5:
+        h0, n0, m0, t0 = rng.choice(bases)
+        for _ in range(rng.randint(1, 3)):
+            suf = rng.choice(STAGING_SUFFIXES)
+            which = rng.choice(["t", "t", "t", "m", "h"])
+            odd.append("%s/%s/%s:%s" % (h0 + suf if which == "h" else h0, n0, m0 + suf if which == "m" else m0, t0 + suf if which == "t" else t0))
+
     def pick_name():
         r = rng.random()
         if r < 0.45:
@@ -235,8 +253,21 @@ def gen_hist(rng, klass=None):
                 op["bytes"] = True
                 data = c if rng.random() < 0.6 else rnd_content(rng, rng.choice([len(c), len(c), rng.randint(0, 6)]))
                 op["src"] = [{"data": hx(data), "st": "more"}]
-            elif rng.random() < 0.35:
-                op["crash"] = rng.randint(0, len(op["src"]) + 2)
+            elif rng.random() < 0.40:
+                nchunks = sum(1 for r_ in op["src"] if r_["data"])
+                if nchunks and rng.random() < 0.5:
+                    # the process dies right after its k-th write to the file returned (k up to and including the last write,
+                    # i.e. also between the final write and whatever clean-up follows it)
+                    if rng.random() < 0.7:
+                        op["k"] = rng.choice(["wrong-samelen", "corrupt-last", "corrupt", "long-same", "long-after", "short", "honest"])
+                        op["src"] = mk_src(rng, c, op["k"])
+                        nchunks = sum(1 for r_ in op["src"] if r_["data"])
+                    if nchunks:
+                        op["wcrash"] = rng.randint(1, nchunks) if rng.random() < 0.5 else nchunks
+                    else:
+                        op["crash"] = rng.randint(0, len(op["src"]) + 2)
+                else:
+                    op["crash"] = rng.randint(0, len(op["src"]) + 2)
             ops.append(op)
         elif r < 0.48:
             src = mk_src(rng, c, rng.choice(["honest", "honest-eof", "err", "short", "long-after"]))
@@ -261,7 +292,42 @@ def gen_hist(rng, klass=None):
             b = rng.choice(bases)
             p = "/".join(name_to_path(rnd_name(rng, b)))
             ops.append({"op": "raw", "path": p, "data": hx(rng.choice(pool) if rng.random() < 0.6 else rnd_content(rng, rng.randint(0, 9)))})
-    return {"kind": "hist", "pool": [hx(c) for c in pool], "digests": [sha(c) for c in pool], "ops": ops, "klass": klass or "hist"}
+    return {"kind": "hist", "pool": [hx(c) for c in pool], "digests": [sha(c) for c in pool], "ops": ops, "klass": klass or "hist",
+            "probe": sorted({op["name"] for op in ops if op["op"] in ("link", "resolve", "unlink") and "@" not in op["name"]})}
+
+
+def gen_staging_hist(rng):
+    """two or three intact manifests of one length, a name and its siblings with staging-like suffixes, left-over files
+    planted next to the manifests: Link / Resolve / Unlink in random order"""
+    n = rng.randint(1, 9)
+    pool = []
+    while len(pool) < rng.randint(2, 3):
+        c = rnd_content(rng, n)
+        if c not in pool:
+            pool.append(c)
+    h, ns, m, t = rng.choice([("h", "n", "m", "t"), ("reg.io", "ns", "mod-1", "v1")])
+    names = ["%s/%s/%s:%s" % (h, ns, m, t)]
+    for suf in rng.sample([".tmp", ".partial", ".chunked", ".lock", "-1", "~"], rng.randint(1, 3)):
+        which = rng.choice(["t", "t", "t", "m"])
+        names.append("%s/%s/%s:%s" % (h, ns, m + suf if which == "m" else m, t + suf if which == "t" else t))
+    ops = [{"op": "put", "d": sha(c), "size": len(c), "src": mk_src(rng, c, "honest"), "k": "honest"} for c in pool]
+    for _ in range(rng.randint(3, 8)):
+        r = rng.random()
+        name = rng.choice(names)
+        if r < 0.55:
+            ops.append({"op": "link", "name": name if rng.random() < 0.8 else name.upper(), "d": sha(rng.choice(pool))})
+        elif r < 0.75:
+            ops.append({"op": "resolve", "name": name})
+        elif r < 0.85:
+            ops.append({"op": "unlink", "name": name})
+        else:
+            # a left-over file of an interrupted staging scheme (or a hand edit) next to the manifests
+            p = name_to_path(name)
+            if p is not None:
+                ops.append({"op": "raw", "path": "/".join(p[:3] + [p[3] + rng.choice([".tmp", ".partial", "~", ".lock"])]),
+                            "data": hx(rng.choice(pool) if rng.random() < 0.7 else rnd_content(rng, n))})
+    return {"kind": "hist", "pool": [hx(c) for c in pool], "digests": [sha(c) for c in pool], "ops": ops, "klass": "hist-staging",
+            "probe": sorted({op["name"] for op in ops if op["op"] in ("link", "resolve", "unlink")})}
 
 
 def chunk_plan(rng, c, kind):
@@ -424,6 +490,8 @@ def gen_cases(ctx):
         cases.append(gen_hist(rng))
     for _ in range(nh // 5):
         cases.append(gen_chunk_hist(rng))
+    for _ in range(nh // 5):
+        cases.append(gen_staging_hist(rng))
     for _ in range(nc):
         cases.append(gen_conc(rng))
     return cases
@@ -450,6 +518,24 @@ def cq_crash(k):
 
 def render_op(op, pre):
     o = op["op"]
+    if o == "put" and op.get("wcrash") is not None:
+        # WriteTo source: one Write per non-empty chunk; the process is killed after the k-th Write call returned.  In the
+        # model that is a crash between two steps: after the step of chunk k if that write was admitted, before it if it was
+        # refused (a refused write changes nothing and the clean-up has not run yet); a refusal before chunk k ends the Put
+        chunks = [bytes.fromhex(r["data"]) for r in op["src"] if r["data"]]
+        n, acc, k = 0, b"", op["wcrash"]
+        msrc, crash = chunks, None
+        for i, p_ in enumerate(chunks, 1):
+            nxt = n + len(p_)
+            refused = (nxt == op["size"] and sha(acc + p_) != op["d"]) or nxt > op["size"]
+            if i == k:
+                msrc, crash = chunks[:i], (i if refused else i + 1)
+                break
+            if refused:
+                msrc, crash = chunks[:i], None
+                break
+            n, acc = nxt, acc + p_
+        return "(OPut %s %s %s %s)" % (cq_bytes(pre[op["d"]]), cq_nat(op["size"]), cq_src([{"data": hx(x), "st": "more"} for x in msrc]), cq_crash(crash))
     if o == "put":
         src = op["src"]
         if op.get("bytes"):
@@ -754,6 +840,12 @@ def monitor_hist(c, o):
             out.append(({"kind": "hist", "class": "resolve-fails-for-linked-name"}, "op %d: Resolve(%r) fails (%s) although the name was linked to %s.." % (i, op["name"], res.get("err"), linked[key][0][:8])))
         # (5) whatever happens to other names and blobs, a linked name keeps its own manifest file with the linked bytes
         for k2, (d2, p2, n2) in list(linked.items()):
+            pr = (snap.get("probe") or {}).get(n2)
+            if pr is not None and pr != d2:
+                out.append(({"kind": "hist", "class": "live-name-resolves-elsewhere"},
+                            "after op %d (%s %r) the name %r, linked to %s.., resolves to %s" % (i, op["op"], op.get("name", op.get("path", "")), n2, d2[:8], (pr[:8] + "..") if pr else "nothing")))
+                linked.pop(k2, None)
+                continue
             files = own_files(snap, p2)
             if not any(sha(f) == d2 for f in files):
                 out.append(({"kind": "hist", "class": "linked-manifest-changed-by-other-op"},
@@ -860,7 +952,7 @@ def run(ctx, only_cases=None):
                     ctx.count("chunk-src:" + ch["k"])
                 if op["op"] == "chunked":
                     ctx.count("chunk-plan:" + op.get("plan", "?"))
-                ctx.count("op:" + op["op"] + (":" + op["k"] if "k" in op else "") + (":crash" if op.get("crash") is not None else "") + (":bytes" if op.get("bytes") else ""))
+                ctx.count("op:" + op["op"] + (":" + op["k"] if "k" in op else "") + (":crash" if op.get("crash") is not None else "") + (":wcrash" if op.get("wcrash") is not None else "") + (":bytes" if op.get("bytes") else ""))
                 st = None
             for st in o.get("steps", []):
                 r = st["res"]
